@@ -710,3 +710,31 @@ def absent_key_table(facts, which, cfgname="default"):
             verdict = "unknown: %s" % u
         rows.append({"occ": name, "verdict": verdict, "expected": "skipped" if oracle_allows_absence(occ) else "missing", "file": fi.file, "line": fi.line})
     return rows
+
+
+def present_key_location(facts, key, cfgname="default", occ=None):
+    """JSON validate_object_value on a map that contains the member's literal key: the data_location after the run (the text of the
+    path segment appended for that key), or ('unknown', reason)"""
+    fi = visitor_fn(facts, "json", "validate_object_value")
+    m = absint.PyMap()
+    m[absint.hkey(("str", key))] = ("enum", "Value::Number", [json_number(1)])
+    m.is_map = True
+    doc = ("enum", "Value::Object", [m])
+    obj = self_obj("json", doc)
+    st = obj[2]["state"][2]
+    # the location is a shared mutable string: helpers that take `&mut String` write through to it
+    locbuf = absint.MutList([("str", "/outer")])
+    locbuf.kind = "str"
+    st.update({"occurrence": occ_val(occ) if occ else ("None",), "is_member_key": True, "is_cut_present": False, "advance_to_next_entry": False,
+               "data_location": locbuf})
+    obj[2].update({"validated_keys": ("None",), "object_value": ("None",), "cut_value": ("None",)})
+    r = Run(facts, "json", cfgname, {}, {"self": obj, "value": ("enum", "token::Value::TEXT", [("str", key)])}, scripts={})
+    r.it.string_places = True
+    try:
+        r.run(fi.node)
+    except Unknown as u:
+        return ("unknown", str(u)), fi
+    loc = st.get("data_location")
+    if isinstance(loc, absint.MutList) and all(isinstance(c, tuple) and c[:1] == ("str",) for c in loc):
+        return "".join(c[1] for c in loc), fi
+    return (loc[1] if isinstance(loc, tuple) and loc[:1] == ("str",) else ("unknown", "data_location is %r" % (loc,))), fi
